@@ -148,7 +148,9 @@ def finalizeMid (env : Env) (n : Int) : M Unit := do
       stateSet st_ACTIVE
     else pure ()
   else pure ()
-  M.modify fun c => { c with lastTime := env.now }
+  let c' ← M.get
+  if c'.state > st_DISCONNECTED_BROKEN_CONN then M.modify fun c => { c with lastTime := env.now }
+  else pure ()
 
 theorem finalizeMid_frame (env : Env) (n : Int) : M.Rel Frame (finalizeMid env n) := by
   unfold finalizeMid
@@ -162,7 +164,7 @@ theorem finalizeMessage_eq (env : Env) (m : Msg) :
       else do
         finalizeMid env n
         persistInbound m) := by
-  simp only [finalizeMessage, finalizeMid, bind_assoc, M.ite_bind]
+  simp only [finalizeMessage, finalizeMid, bind_assoc, M.ite_bind, pure_bind]
 
 
 theorem finalize_good (env : Env) (m : Msg) :
